@@ -11,6 +11,7 @@
   fault at every communication operation) is harness/props/c10.py.
 -/
 import PtProofs.DistGraph
+import PtProofs.VerifyLemmas
 namespace Pt.Dist
 
 /-- **A correct computation is never rejected** (by the modelled checks). -/
@@ -52,7 +53,44 @@ theorem acyclic_no_cycle {g : CommGraph} (h : Acyclic g) (c : CommId) : ¬ DepPa
   intro hp
   exact Nat.lt_irrefl _ (hpath hp)
 
+/-! ### partition-level inputs: the model of `verify_distributed_partition` (PtModel.Verify) -/
+
+/-- a diagnostic class is listed by the model iff the clause it names is violated -/
+theorem diagnose_partition_exact (P : Partition) (pin : PinOf) {d : VDiag} :
+    d ∈ verifyViolated P pin ↔ VViolates P pin d :=
+  verifyViolated_exact P pin
+
+/-- **an acceptable partition gets no diagnostic** (when the needed pids name existing parts) -/
+theorem diagnose_partition_sound (P : Partition) (pin : PinOf) (hd : VDepsAreParts P pin)
+    (h : VerifyOK P pin) : verifyViolated P pin = [] :=
+  verify_model_sound P pin hd h
+
+/-- **a partition without diagnostic is acceptable**: consistent names, no duplicate send /
+    receive, every receive has a send and vice versa, the parts admit a ranking -/
+theorem diagnose_partition_complete (P : Partition) (pin : PinOf) (h : verifyViolated P pin = []) :
+    VerifyOK P pin :=
+  verify_model_complete P pin h
+
 /-! ## non-vacuity -/
+
+/-- rank 0 sends name 1 (tag 7) to rank 1, which receives it as name 2 -/
+def exVP : Partition :=
+  [ { parts := [{ pid := 0, needs := [], inputs := [0], outputs := [1], recvs := [],
+                  sends := [⟨1, 1, 7⟩] }], user := [0], overall := [1] },
+    { parts := [{ pid := 0, needs := [], inputs := [2], outputs := [3], recvs := [⟨2, 0, 7⟩],
+                  sends := [] }], user := [], overall := [3] } ]
+def exPin : PinOf := fun r _ => if r = 1 then [2] else []
+
+example : verifyViolated exVP exPin = [] := by decide
+example : VerifyOK exVP exPin := diagnose_partition_complete exVP exPin (by decide)
+example : VDepsAreParts exVP exPin := by unfold VDepsAreParts; decide
+/-- the same partition with the send duplicated deserves `DuplicateSendError` (and only that) -/
+example : verifyViolated
+    [ { parts := [{ pid := 0, needs := [], inputs := [0], outputs := [1], recvs := [],
+                    sends := [⟨1, 1, 7⟩, ⟨1, 1, 7⟩] }], user := [0], overall := [1] },
+      { parts := [{ pid := 0, needs := [], inputs := [2], outputs := [3], recvs := [⟨2, 0, 7⟩],
+                    sends := [] }], user := [], overall := [3] } ] exPin = [.dupSend] := by decide
+
 
 /-- ping-pong: rank 0 sends (tag 7) to rank 1, which answers (tag 8) with data depending on it -/
 def exG : CommGraph :=
